@@ -291,7 +291,61 @@ ORDER = [
     tags=('C18',), ordered=('P',)),
 ]
 
-ALL = CORE + AGG + ORDER
+def _negB(db, x):
+  return not [1 for (b,) in db['B'] if b == x]
+
+
+_Q = lambda db: list(db['Q'])
+_maxq = lambda db: [(x, _none_if_empty([y for (x2, y) in db['Q'] if x2 == x], max)) for (x,) in db['A']]
+
+SUGAR = [
+  # each schema states one documented equivalence: both predicates have the same spec
+  S('sugar_positional', 'P(x, y) :- Q(x, y);\nL(a, b) :- P(col0: a, col1: b);\nS(a, b) :- P(a, b);\n'
+    '@NoInject(PN);\nPN(x, y) :- Q(x, y);\nLN(a, b) :- PN(col0: a, col1: b);\nM(b) :- P(col1: b);', {'Q': 2},
+    {'L': _Q, 'S': _Q, 'LN': _Q, 'M': lambda db: [(y,) for (x, y) in db['Q']]}, tags=('C11',)),
+  S('sugar_field_shorthand', 'P(a: x, b: y) :- Q(x, y);\nS(a, b) :- P(a:, b:);\nL(a, b) :- P(a: a, b: b);',
+    {'Q': 2}, {'S': _Q, 'L': _Q}, tags=('C11',)),
+  S('sugar_value', 'F(x) = y :- Q(x, y);\nFL(x, logica_value: y) :- Q(x, y);\n'
+    'G(x, F(x)) :- A(x);\nGL(x, v) :- A(x), F(x, logica_value: v);\nGM(x, FL(x)) :- A(x);', {'Q': 2, 'A': 1},
+    {'F': _Q, 'FL': _Q,
+     'G': lambda db: [(x, y) for (x,) in db['A'] for (x2, y) in db['Q'] if x2 == x],
+     'GL': lambda db: [(x, y) for (x,) in db['A'] for (x2, y) in db['Q'] if x2 == x],
+     'GM': lambda db: [(x, y) for (x,) in db['A'] for (x2, y) in db['Q'] if x2 == x]},
+    cols={'F': ['col0', 'logica_value'], 'FL': ['col0', 'logica_value']}, tags=('C11',)),
+  S('sugar_eq', 'S(x) :- Q(x, y), x = y;\nL(x) :- Q(x, y), x == y;\nS2(x, z) :- Q(x, y), z = x + y;\n'
+    'L2(x, z) :- Q(x, y), z == x + y;', {'Q': 2},
+    {'S': lambda db: [(x,) for (x, y) in db['Q'] if x == y], 'L': lambda db: [(x,) for (x, y) in db['Q'] if x == y],
+     'S2': lambda db: [(x, x + y) for (x, y) in db['Q']], 'L2': lambda db: [(x, x + y) for (x, y) in db['Q']]},
+    tags=('C11',)),
+  S('sugar_negation', 'S(x) :- A(x), ~B(x);\nL(x) :- A(x), Max{1 :- B(x)} is null;\n'
+    'SI(x) :- A(x), (Q(x, y) => B(y));\nLI(x) :- A(x), ~(Q(x, y), ~B(y));', {'A': 1, 'B': 1, 'Q': 2},
+    {'S': lambda db: [(x,) for (x,) in db['A'] if _negB(db, x)],
+     'L': lambda db: [(x,) for (x,) in db['A'] if _negB(db, x)],
+     'SI': lambda db: [(x,) for (x,) in db['A'] if all(not _negB(db, y) for (x2, y) in db['Q'] if x2 == x)],
+     'LI': lambda db: [(x,) for (x,) in db['A'] if all(not _negB(db, y) for (x2, y) in db['Q'] if x2 == x)]},
+    tags=('C11',), max_rows={'quick': 2, 'thorough': 2}),
+  S('sugar_combine', 'C1(x, m) :- A(x), m Max= (y :- Q(x, y));\nC2(x, m) :- A(x), m == Max{y :- Q(x, y)};\n'
+    'C3(x, m) :- A(x), m == (combine Max= y :- Q(x, y));', {'A': 1, 'Q': 2},
+    {'C1': _maxq, 'C2': _maxq, 'C3': _maxq}, tags=('C11',)),
+  S('sugar_in_list', 'S(x, y) :- Q(x, y), x in [0, 1];\nL(x, y) :- Q(x, y), (x == 0 | x == 1);\n'
+    'SD(x) :- Q(x, y), y in [1, 1];\nLD(x) :- Q(x, y), (y == 1 | y == 1);', {'Q': 2},
+    {'S': lambda db: [(x, y) for (x, y) in db['Q'] for c in (0, 1) if x == c],
+     'L': lambda db: [(x, y) for (x, y) in db['Q'] for c in (0, 1) if x == c],
+     'SD': lambda db: [(x,) for (x, y) in db['Q'] for c in (1, 1) if y == c],
+     'LD': lambda db: [(x,) for (x, y) in db['Q'] for c in (1, 1) if y == c]}, tags=('C11',)),
+  S('sugar_rules_vs_or', 'S(x) :- A(x);\nS(x) :- B(x);\nS(x) :- A(x);\nL(x) :- A(x) | B(x) | A(x);', {'A': 1, 'B': 1},
+    {'S': lambda db: list(db['A']) + list(db['B']) + list(db['A']),
+     'L': lambda db: list(db['A']) + list(db['B']) + list(db['A'])}, tags=('C11',)),
+  S('sugar_head_agg', 'S(x) Max= y :- Q(x, y);\nL(x, logica_value? Max= y) distinct :- Q(x, y);\n'
+    'S2(x) += y :- Q(x, y);\nL2(x, logica_value? += y) distinct :- Q(x, y);', {'Q': 2},
+    {'S': lambda db: agg(db['Q'], lambda r: (r[0],), lambda r: r[1], max),
+     'L': lambda db: agg(db['Q'], lambda r: (r[0],), lambda r: r[1], max),
+     'S2': lambda db: agg(db['Q'], lambda r: (r[0],), lambda r: r[1], sum),
+     'L2': lambda db: agg(db['Q'], lambda r: (r[0],), lambda r: r[1], sum)},
+    cols={'S': ['col0', 'logica_value'], 'L': ['col0', 'logica_value']}, tags=('C11',)),
+]
+
+ALL = CORE + AGG + ORDER + SUGAR
 
 
 def by_tag(tag):
